@@ -1,6 +1,8 @@
 ---------------------------- MODULE MC_Framing ----------------------------
 EXTENDS Framing, Json, IOUtils
 B(i, n) == [j \in 1..n |-> ((7 * i) + j) % 256]
+\* a message whose content is itself a well-formed frame (a reader that resumes inside it takes the content for a message)
+SentNested == << <<0, 0, 0, 1, 9>>, <<7>> >>
 Sent4 == << B(1, 2), <<>>, B(2, 1), B(3, 3) >>              \* 4-byte prefixes: wire of 22 bytes
 Sent2 == << B(1, 1), <<>>, B(2, 3) >>                         \* 2-byte prefixes: wire of 10 bytes
 SentCap == << B(1, 1), B(2, 4), B(3, 1) >>                    \* second message above Cap = 3
